@@ -342,6 +342,21 @@ func getSplicedStrList(headerValue string, dst []string) []string {
 	return dst
 }
 
+// trimOWSLeft and trimOWSRight remove optional whitespace as HTTP defines it: OWS = *( SP / HTAB )
+func trimOWSLeft(b []byte) []byte {
+	for len(b) > 0 && (b[0] == ' ' || b[0] == '\t') {
+		b = b[1:]
+	}
+	return b
+}
+
+func trimOWSRight(b []byte) []byte {
+	for len(b) > 0 && (b[len(b)-1] == ' ' || b[len(b)-1] == '\t') {
+		b = b[:len(b)-1]
+	}
+	return b
+}
+
 // forEachMediaRange parses an Accept or Content-Type header, calling functor
 // on each media range.
 // See: https://www.rfc-editor.org/rfc/rfc9110#name-content-negotiation-fields
@@ -350,7 +365,7 @@ func forEachMediaRange(header []byte, functor func([]byte)) {
 
 	for len(header) > 0 {
 		n := 0
-		header = utils.TrimLeft(header, ' ')
+		header = trimOWSLeft(header)
 		quotes := 0
 		escaping := false
 
@@ -418,7 +433,7 @@ func getOffer(header []byte, isAccepted func(spec, offer string, specParams head
 	forEachMediaRange(header, func(accept []byte) {
 		order++
 		// optional whitespace before the comma does not belong to the range (or to its weight)
-		accept = utils.TrimRight(accept, ' ')
+		accept = trimOWSRight(accept)
 		spec, quality := accept, 1.0
 		var params headerParams
 
@@ -456,7 +471,7 @@ func getOffer(header []byte, isAccepted func(spec, offer string, specParams head
 			}
 		}
 
-		spec = utils.Trim(spec, ' ')
+		spec = trimOWSRight(trimOWSLeft(spec))
 
 		// Determine specificity
 		var specificity int
